@@ -18,7 +18,7 @@ theorem crun_done_implies {Ct} (P : XP Ct) (cfg : CCfg) (t : CTape) (ms : List (
     (outs : List (Msg Ct)) (h : crun P cfg t .waitResPQ ms = (.done r, outs)) :
     ∃ sn pq fps fp p q ans d hash rest,
       ms = .resPQ t.nonce sn pq fps :: .dhOk t.nonce sn ans :: .genOk t.nonce sn hash :: rest ∧
-      selectKey cfg.keys fps = some fp ∧ pq ≤ pqMax ∧ P.factor pq = some (p, q) ∧
+      selectKey cfg.keys fps = some fp ∧ pq ≤ pqMax ∧ (1 < pq ∧ P.isPrime pq = false) ∧ P.factor pq = some (p, q) ∧
       P.decS (tempAESKeys P.sha1 t.newNonce sn) ans = some d ∧
       d.nonce = t.nonce ∧ d.serverNonce = sn ∧
       checkDH P.isPrime d.g d.dhPrime = true ∧
@@ -38,7 +38,7 @@ theorem crun_done_implies {Ct} (P : XP Ct) (cfg : CCfg) (t : CTape) (ms : List (
         subst he
         simp [crun_failed] at h
       | some out1 =>
-        obtain ⟨sn, pq, fps, fp, p, q, hm1, hsel, hpq, hfac, hc1, _⟩ := onResPQ_some P cfg t m1 c1 out1 h1
+        obtain ⟨sn, pq, fps, fp, p, q, hm1, hsel, hpq, hcomp, hfac, hc1, _⟩ := onResPQ_some P cfg t m1 c1 out1 h1
         subst hc1
         cases rest1 with
         | nil => simp [crun] at h
@@ -66,7 +66,7 @@ theorem crun_done_implies {Ct} (P : XP Ct) (cfg : CCfg) (t : CTape) (ms : List (
                   simp only [crun_done, Option.toList, List.append_nil, Prod.mk.injEq,
                     CState.done.injEq] at h
                   obtain ⟨hash, hm3, hh, hr, _⟩ := onDhGen_done P t sn _ m3 r' none h3
-                  refine ⟨sn, pq, fps, fp, p, q, ans, d, hash, rest3, ?_, hsel, hpq, hfac, hdec, hn, hsn, hdh, hpar, hh, ?_⟩
+                  refine ⟨sn, pq, fps, fp, p, q, ans, d, hash, rest3, ?_, hsel, hpq, hcomp, hfac, hdec, hn, hsn, hdh, hpar, hh, ?_⟩
                   · rw [hm1, hm2, hm3]
                   · rw [← h.1, hr]
 
@@ -109,7 +109,7 @@ theorem honest_agree {Ct} (P : XP Ct) (hP : LawfulXP P) (cc : CCfg) (ct : CTape)
     cases o1 with
     | none => simp at h
     | some out1 =>
-      obtain ⟨sn, pq, fps, fp, p, q, hm1, hsel, _, _, hc1, hout1⟩ := onResPQ_some P cc ct _ c1 out1 h1
+      obtain ⟨sn, pq, fps, fp, p, q, hm1, hsel, _, _, _, hc1, hout1⟩ := onResPQ_some P cc ct _ c1 out1 h1
       simp only [Msg.resPQ.injEq] at hm1
       obtain ⟨_, hsn, hpq, hfps⟩ := hm1
       subst hsn hpq hfps hc1
@@ -177,7 +177,8 @@ the server's key, the factorisation succeeds, both are configured for the same D
 parameters drawn by the two tapes pass the client's checks. -/
 theorem honest_completes {Ct} (P : XP Ct) (hP : LawfulXP P) (cc : CCfg) (ct : CTape) (sc : SCfg) (st : STape)
     (p q : Nat)
-    (htrust : sc.fp ∈ cc.keys) (hpq : st.pq ≤ pqMax) (hfac : P.factor st.pq = some (p, q))
+    (htrust : sc.fp ∈ cc.keys) (hpq : st.pq ≤ pqMax) (hpq1 : 1 < st.pq) (hcomp : P.isPrime st.pq = false)
+    (hfac : P.factor st.pq = some (p, q))
     (hdc : cc.dc = sc.dc)
     (hdh : checkDH P.isPrime (serverG : Int) st.dhPrime = true)
     (hpar : checkDHParams st.dhPrime serverG (powMod serverG st.a st.dhPrime) (powMod serverG ct.b st.dhPrime) = true) :
@@ -191,7 +192,8 @@ theorem honest_completes {Ct} (P : XP Ct) (hP : LawfulXP P) (cc : CCfg) (ct : CT
   have e1 : onResPQ P cc ct (.resPQ ct.nonce st.serverNonce st.pq [sc.fp]) =
       (.waitDH st.serverNonce, some (.reqDH ct.nonce st.serverNonce p q sc.fp (P.rsaEnc sc.fp
         ⟨cc.temp, st.pq, p, q, ct.nonce, st.serverNonce, ct.newNonce, cc.dc, if cc.temp then cc.expiresIn else 0⟩ ct.rsaPad))) := by
-    simp [onResPQ, hsel, hpq', hfac]
+    have hpq1' : ¬ (st.pq ≤ 1) := by omega
+    simp [onResPQ, hsel, hpq', hpq1', hcomp, hfac]
   have e2 : onDHParams P ct st.serverNonce (.dhOk ct.nonce st.serverNonce
       (P.encS (tempAESKeys P.sha1 ct.newNonce st.serverNonce)
         ⟨ct.nonce, st.serverNonce, (serverG : Int), st.dhPrime, powMod serverG st.a st.dhPrime, st.serverTime⟩ st.ansPad)) =
